@@ -58,8 +58,23 @@ pages!(pages_p1_48, 1, 48, 30, 7, 3, covers3);
 pages!(pages_p2_48, 2, 48, 30, 7, 3, covers3);
 pages!(pages_p1_96, 1, 96, 90, 7, 3, covers3);
 pages!(pages_p1_336, 1, 336, 160, 16, 3, covers3);
+pages!(pages_p1_16_a1, 1, 16, 12, 8, 1, covers1);
+pages!(pages_p1_32_a1, 1, 32, 28, 8, 1, covers1);
 pages!(pages_p1_48_a1, 1, 48, 30, 7, 1, covers1);
 pages!(pages_p2_16_a1, 2, 16, 12, 8, 1, covers1);
 pages!(pages_p2_48_a1, 2, 48, 30, 7, 1, covers1);
 pages!(pages_p1_96_a1, 1, 96, 90, 7, 1, covers1);
 pages!(pages_p1_336_a1, 1, 336, 160, 16, 1, covers1);
+
+/// Quick-tier variant: one sign type, first transfer attempt only (reset dance + one transfer).
+#[kani::proof]
+#[kani::stub(std::fmt::format, crate::ctl::no_format)]
+fn configure_a1() {
+    let (res, bus) = run_unit_bounded(Call::Configure, Replies::Conformant, false, true, 0, 1, true);
+    let b = bus.borrow();
+    assert!(b.ctl.phase == Phase::Done, "C09: configure returned before the transfer was complete");
+    assert!(outcome_matches(b.ctl.outcome, res), "C09: configure result does not match the conversation");
+    kani::cover!(res == Res::Ok, "configured");
+    drop(b);
+    std::mem::forget(bus);
+}
